@@ -100,6 +100,8 @@ structure St where
   targets : List ((Text × Nat) × (Nat × Nat)) := []   -- `_CircuitAttacher._circuit_targets`: local (address, port) ↦ (circuit object, Deferred)
   viaWait : List (Nat × (Nat × (Text × Nat))) := []   -- via-circuit connections waiting for their circuit to be BUILT: circuit object ↦ (Deferred, local address the SOCKS connection will have)
   nextTok : Nat := 0
+  amap : List (Text × Nat) := []       -- `state.addrmap.addr`: a name or an address ↦ its mapping (by number)
+  anames : List Text := []             -- the name each mapping stands for, by number
   deriving DecidableEq, Repr
 
 inductive Out
@@ -276,6 +278,28 @@ def streamRecord (s : St) (o sid : Nat) (args : List Text) : St :=
     | none => x
   setS s o { x with state := some (args.getD 1 []) }
 
+def tget (m : List (Text × Nat)) (k : Text) : Option Nat := (m.find? (·.1 = k)).map (·.2)
+
+def tset (m : List (Text × Nat)) (k : Text) (v : Nat) : List (Text × Nat) := (m.filter (·.1 ≠ k)) ++ [(k, v)]
+
+/-- `AddrMap.find(host).name`, or the host itself when no mapping knows it -/
+def hostName (s : St) (h : Text) : Text :=
+  match tget s.amap h with
+  | some r => s.anames.getD r h
+  | none => h
+
+/-- `AddrMap.update` for an `ADDRMAP name address NEVER` line (mappings that expire by time: C20): a known name moves to
+the new address — the keys of its old address go —, an unknown one gets a mapping reachable under both the name and the
+address; the address `<error>` takes a known name's mapping away altogether -/
+def addrUpdate (s : St) (name ip : Text) : St :=
+  match tget s.amap name with
+  | some r =>
+    if ip = str "<error>" then { s with amap := s.amap.filter fun e => tget s.amap e.1 ≠ some r, anames := s.anames.set r name }
+    else { s with amap := tset (s.amap.filter fun e => !(tget s.amap e.1 = some r && e.1 ≠ name)) ip r, anames := s.anames.set r name }
+  | none =>
+    if ip = str "<error>" then s
+    else { s with amap := tset (tset s.amap name s.anames.length) ip s.anames.length, anames := s.anames ++ [name] }
+
 /-- what the new state means: target, notifications, leaving the circuit -/
 def streamKind (s : St) (o sid : Nat) (args : List Text) (quit : List Nat) : St × List Out :=
   let st := args.getD 1 []
@@ -283,7 +307,7 @@ def streamKind (s : St) (o sid : Nat) (args : List Text) (quit : List Nat) : St 
   let x := getS s o
   if st = str "NEW" || st = str "NEWRESOLVE" || st = str "SUCCEEDED" then
     let x' := match x.targetHost, rsplitColon (args.getD 3 []) with
-      | none, some (h, p) => { x with targetHost := some h, targetPort := (natOf p).getD 0 }
+      | none, some (h, p) => { x with targetHost := some (hostName s h), targetPort := (natOf p).getD 0 }
       | _, _ => x
     let weird : List Out := if st = str "NEW" && x.circuit.isSome then [.err (str "circuit-valid-in-new")] else []
     let n := notifyS (setS s o x') o quit (if st = str "NEW" then str "new" else str "succeeded") [] []
@@ -415,6 +439,7 @@ inductive In
   | answer (tok : Nat) (a : Ans)
   | via (coid : Nat) (addr : Text) (port : Nat)      -- `circuit.stream_via(…).connect(…)` whose SOCKS connection has this local address
   | viaLost (addr : Text) (port : Nat)               -- the SOCKS connection made from this local address fails before its stream was seen
+  | addrMap (name ip : Text)                         -- `ADDRMAP name ip NEVER`
   deriving DecidableEq, Repr
 
 def listen (l : List Nat) (lid : Nat) : List Nat := if lid ∈ l then l else l ++ [lid]
@@ -515,5 +540,6 @@ def step (s : St) : In → St × List Out
     match rekey (addr, port) s.nextD s.targets with
     | none => (s, [])
     | some (d, ts) => ({ s with nextD := s.nextD + 1, targets := ts }, [.fire d false, .deferred s.nextD])
+  | .addrMap name ip => (addrUpdate s name ip, [])
 
 end TxV.TorState
